@@ -28,6 +28,7 @@ type Task struct {
 	// blocked: the task did not come back to the scheduler within the grace period (it is blocked on a
 	// real lock held by a parked task). It re-joins when it parks again.
 	blocked bool
+	yieldN  uint32
 }
 
 type parkMsg struct {
@@ -47,6 +48,7 @@ type Sched struct {
 	wg           sync.WaitGroup
 	Uncontrolled bool
 	MaxSteps     int
+	Stride       uint32 // > 1: tasks park at every Stride-th active yield point only
 	// Activation of the yield sites inserted by cmd/instrument: a site is active in this run iff
 	// hash(site)^AutoSalt, reduced to 16 bits, is below the threshold (65536 = all, 0 = none).
 	AutoSalt       uint32
@@ -115,6 +117,14 @@ func (s *Sched) Yield(site string) {
 	}
 	if tk == nil {
 		return // not a task goroutine
+	}
+	if s.Stride > 1 {
+		// coarse schedules: a task parks at every Stride-th of its active yield points only, so that the step budget
+		// spans runs of hundreds of thousands of yields and tasks drift far apart (yieldN belongs to the task's goroutine)
+		tk.yieldN++
+		if tk.yieldN%s.Stride != 0 {
+			return
+		}
 	}
 	raceDisable()
 	s.parkCh <- parkMsg{task: tk, site: site}
